@@ -20,6 +20,8 @@
   generator's AST. Message texts (`Error::what()`) are a field of `Env` too.
 -/
 import BlocV.Model.Interp
+import BlocV.Model.Lex
+import BlocV.Model.Elab
 
 namespace BlocV.Cli
 open BlocV
@@ -240,6 +242,47 @@ def errLinePos (l c : Nat) (what : Bytes) : Bytes :=
 /-- `ReadFile::read`: every CR byte is dropped. -/
 def dropCr (t : Bytes) : Bytes := t.filter (· != 13)
 
+/-! ### the reader (apps/read_file.cpp), byte by byte
+
+```
+int ReadFile::read(bloc::Parser *, char * buf, int max_size) {
+  int read = 0;
+  while (read < max_size) {
+    if (::fread(&buf[read], sizeof(char), 1, _file) == 1) {
+      if (buf[read] == '\r') continue;          // the slot is overwritten by the next byte
+      if (buf[read++] != '\n') continue;
+    }
+    break;                                      // end of file, or the newline has been stored
+  }
+  return read;
+}
+```
+`readCall max acc stream`: the loop, `acc` = `buf[0..read)` most recent byte first, `stream` = what `_file`
+still holds. Result: (the `read` bytes stored in `buf`, the stream after the call). The capacity test comes
+BEFORE the `fread`: a byte is taken from the stream only when there is room for it. -/
+def readCall (max : Nat) : Bytes → Bytes → Bytes × Bytes
+  | acc, [] => (acc.reverse, [])                               -- `read == max_size`, or `fread` returns 0
+  | acc, c :: t =>
+    if acc.length < max then
+      if c == 13 then readCall max acc t                       -- `continue` without `read++`
+      else if c != 10 then readCall max (c :: acc) t           -- `buf[read++] != '\n'` → `continue`
+      else ((c :: acc).reverse, t)                             -- newline stored → `break`
+    else (acc.reverse, c :: t)                                 -- loop condition false: nothing consumed
+
+/-- The calls `tokenizer_buf` makes (tokenizer.lex:156-171): one `read(buf, max)` per scanner buffer, until a
+call returns 0 bytes (`n > 0` fails → end of input). `fuel` bounds the number of calls (`readChunks` gives
+one more than the stream has bytes: a call that returns at least one byte consumes at least one). -/
+def readChunksF (max : Nat) : Nat → Bytes → List Bytes
+  | 0, _ => []
+  | fuel + 1, stream =>
+    let r := readCall max [] stream
+    if r.1.isEmpty then [] else r.1 :: readChunksF max fuel r.2
+
+def readChunks (max : Nat) (file : Bytes) : List Bytes := readChunksF max (file.length + 1) file
+
+/-- The program text the parser gets from `ReadFile` through `tokenizer_buf` (1023 bytes asked per call). -/
+def readText (file : Bytes) : Bytes := (readChunks Lex.chunkMax file).flatten
+
 /-- The table `$ARG`: `Collection(type_literal.levelUp())` filled with one `Literal` per word. -/
 def argTable (args : List Bytes) : Val := .tab Ty.str.levelUp [] (args.map Val.str)
 
@@ -311,7 +354,7 @@ def runProgramMode (env : Env) (o : Options) (file : Bytes) (args : List Bytes) 
       -- the output file has been created (empty) already
       { exit := .code 1, stdout := str "Failed to open file '" ++ file ++ str "' for read.",
         outFile := match sel with | .file p => some (p, []) | .stdout => none }
-    | some text => finish env sel (library env (dropCr text) args)
+    | some text => finish env sel (library env (readText text) args)
 
 /-- The text handed to the expression parser: every word followed by a blank, then ";". -/
 def exprText (words : List Bytes) : Bytes := (words.map (· ++ [32])).flatten ++ [59]
@@ -457,5 +500,22 @@ def run (env : Env) (argv : List Bytes) (stdin : Bytes) : Proc :=
   | .interactive _ args => runInteractive env args stdin
   | .expr _ words => runExprMode env words
   | .program o file args => runProgramMode env o file args stdin
+
+/-! ### `Env.compile` instantiated with the model's own front end -/
+
+/-- Marker message for a text the parser model accepts but the interpreter model cannot express
+(`Elab.ElabErr.unsupported`): OUTSIDE the domain of the theorems below (the driver answers `unsupported`). -/
+def feUnsupported : Bytes := str "front end: construct outside the interpreter model"
+
+/-- `base` with `compile` := reader chunks → scanner → parser → elaboration (`Elab.frontEnd`), the program then
+run by `runProgram` as before. A text the parser model rejects is a compile error (the front end gives the
+error code, not the token position: `pos = none`). -/
+def feEnv (base : Env) : Env :=
+  { base with compile := fun text =>
+      match Elab.frontEnd text with
+      | .error c => .perr none (base.what c [])
+      | .ok (.error _) => .perr none feUnsupported
+      | .ok (.ok prog) => .ok prog }
+
 
 end BlocV.Cli
